@@ -4,7 +4,7 @@
 package consensus_vote
 
 //@ func (*VoteHandler).MakeDepositProposal
-//@   property C20
+//@   property C20, C25, C18
 //@   mode abstract
 //@   modifies Store
 //@   requires service != nil && service.tx != nil && config.DefConfig != nil && config.DefConfig.P2PNode != nil
@@ -14,6 +14,16 @@ package consensus_vote
 //@   ghost var id Bytes
 //@   ghost var chk *scom.MakeTxParam = nil
 //@   ghost var guarded bool = false
+//@   ghost var wit bool = false
+//@   ghost var fired bool = false
+//@   ghost var voter common.Address
+//@   set after "err = utils.ValidateOwner(service, address)" : wit := err == nil
+//@   set after "err = utils.ValidateOwner(service, address)" : voter := address
+//@   set after "ok, err := CheckVotes(service, id, address)" : fired := ok && err == nil
+//@   -- C25/C18: the vote is cast in the name of the witnessed address, and a message is released only when the vote count fired
+//@   callsite[c25-voter-witnessed] CheckVotes#1 requires wit && arg2 == voter
+//@   callsite[c18-owner] ValidateOwner#1 requires arg1 == address
+//@   ensures[c25-released-only-when-fired] r0 != nil ==> fired
 //@   set before "if config.NETWORK_ID_TEST_NET != config.DefConfig.P2PNode.NetworkId || service.GetHeight() >= 19954185" : guarded := config.NETWORK_ID_TEST_NET != config.DefConfig.P2PNode.NetworkId || service.height >= 19954185
 //@   set before "if err := scom.CheckDoneTx(service, txParam.CrossChainID, params.SourceChainID); err != nil" : pre := Store
 //@   set before "if err := scom.CheckDoneTx(service, txParam.CrossChainID, params.SourceChainID); err != nil" : src := params.SourceChainID
@@ -27,3 +37,53 @@ package consensus_vote
 //@   -- accepting marks exactly that (source chain, id) as done; nothing else in storage changes between check and mark
 //@   ensures[c20-marked] err == nil && r0 != nil && guarded ==> post[doneKeyB(id, src)] != None
 //@   ensures[c20-onlymarker] err == nil && r0 != nil && guarded ==> post == upd(pre, doneKeyB(id, src), post[doneKeyB(id, src)])
+
+// ---- vote bookkeeping (C25) --------------------------------------------------------------------------
+//@ spec voteKey(id []byte) KeyT = K2(utils.CrossChainManagerContractAddress, "voteInfo", id)
+// Status flag carried by a stored VoteInfo record (first field of its encoding; the codec is C04's subject)
+//@ uf voteDone(item Bytes) bool
+
+//@ func getVoteInfo
+//@   property C25
+//@   mode abstract
+//@   requires native != nil
+//@   modifies nothing
+//@   ensures err == nil ==> r0 != nil
+//@   assumes err == nil ==> (r0.Status <==> (Store[voteKey(id)] != None && voteDone(someval(Store[voteKey(id)]))))
+
+//@ func putVoteInfo
+//@   property C25
+//@   mode abstract
+//@   requires native != nil && voteInfo != nil
+//@   modifies Store
+//@   ensures Store == upd(old(Store), old(voteKey(id)), Store[old(voteKey(id))]) && Store[old(voteKey(id))] != None
+//@   assumes voteDone(someval(Store[old(voteKey(id))])) <==> old(voteInfo.Status)
+
+//@ func CheckVotes
+//@   property C25
+//@   mode abstract
+//@   requires native != nil
+//@   modifies Store
+//@   ghost var vk KeyT
+//@   ghost var done0 bool = false
+//@   ghost var gnum int = 0
+//@   ghost var gsum int = 0
+//@   ghost var isVal bool = false
+//@   set entry : vk := voteKey(id)
+//@   set entry : done0 := Store[voteKey(id)] != None && voteDone(someval(Store[voteKey(id)]))
+//@   set before "if num >= (2*sum+2)/3" : gnum := num
+//@   set before "if num >= (2*sum+2)/3" : gsum := sum
+//@   set before "consensus = true" : isVal := has(peerPoolMap.PeerPoolMap, key) && v.Status == node_manager.ConsensusStatus && addrOfKey(pubKeyOfBytes(hexDecode(key))) == address
+//@   loop 1 invariant consensus ==> isVal
+//@   loop 2 invariant 0 <= num && num <= sum && sum <= it2
+//@   -- only the vote record of this id can change
+//@   ensures[c25-frame] Store == upd(old(Store), vk, Store[vk])
+//@   ensures[c25-error] err != nil ==> Store == old(Store)
+//@   -- a record that already released its message never releases again and is not touched
+//@   ensures[c25-once] done0 ==> !r0 && Store == old(Store)
+//@   -- releasing marks the record as done
+//@   ensures[c25-marks-done] err == nil && r0 ==> Store[vk] != None && voteDone(someval(Store[vk]))
+//@   -- released exactly when the distinct consensus validators that voted (including this vote) reach ceil(2N/3)
+//@   ensures[c25-threshold] err == nil && !done0 ==> (r0 <==> gnum >= (2*gsum+2)/3)
+//@   -- only an address derived from the key of a current consensus-status pool member is accepted as voter
+//@   ensures[c25-validator-only] err == nil && !done0 ==> isVal
